@@ -6,3 +6,7 @@ package jwsutil
 
 //@ func VerifyJWS(jwsStr, jwk, opts) (ret, err)
 //@   pure
+
+//@ func ParseJWS(jwsStr, opts) (ret, err)
+//@   pure
+//@   ensures [nonnil] err == nil ==> ret != nil
